@@ -24,7 +24,7 @@ open TmVerif.Charset
 
 /-! ### UTF-8 (as `utf8.DecodeRuneInString` / `string(rune)`) -/
 
-private def isCont (b : Nat) : Bool := 0x80 ≤ b && b ≤ 0xBF
+def isCont (b : Nat) : Bool := 0x80 ≤ b && b ≤ 0xBF
 
 /-- First rune of a byte string and its width; `none` for the empty string and for an invalid
 encoding (where Go returns `RuneError, 1`). -/
@@ -99,7 +99,7 @@ deriving Repr, DecidableEq
 
 def Variant.strict : Variant := ⟨false, false, false, false⟩
 
-private def ch (c : Char) : Int := Int.ofNat c.toNat
+def ch (c : Char) : Int := Int.ofNat c.toNat
 
 /-- `hexval`: value of a hexadecimal digit, `-1` otherwise. -/
 def hexval (lax : Bool) (r : Int) : Int :=
@@ -114,6 +114,8 @@ def octval (r : Int) : Int :=
 
 def isHexDigit (r : Int) : Prop :=
   (ch '0' ≤ r ∧ r ≤ ch '9') ∨ (ch 'a' ≤ r ∧ r ≤ ch 'f') ∨ (ch 'A' ≤ r ∧ r ≤ ch 'F')
+
+instance (r : Int) : Decidable (isHexDigit r) := by unfold isHexDigit; exact inferInstance
 
 /-- `isid`. -/
 def isid (r : Int) : Bool :=
@@ -550,7 +552,24 @@ def canon : Regex → Regex
   | .cc c => .cc (newCharset c)
   | .cat a b => catC (canon a) (canon b)
   | .alt a b => altC (canon a) (canon b)
-  | .rep r mn mx => if mx == some 0 then .eps else .rep (canon r) mn mx
+  | .rep r mn mx => if mx == some 0 && mn == 0 then .eps else .rep (canon r) mn mx
   | .ext n => .ext n
+
+/-! ### Denotation -/
+
+/-- `k`-fold concatenation of a language. -/
+def Pow (L : List Int → Prop) : Nat → List Int → Prop
+  | 0, w => w = []
+  | k + 1, w => ∃ u v, w = u ++ v ∧ L u ∧ Pow L k v
+
+/-- The language of a regular expression over symbols (code points, or bytes in byte mode);
+`ρ` interprets the named references. -/
+def Lang (ρ : List Nat → List Int → Prop) : Regex → List Int → Prop
+  | .eps => fun w => w = []
+  | .cc c => fun w => ∃ s, w = [s] ∧ Mem s c
+  | .cat a b => fun w => ∃ u v, w = u ++ v ∧ Lang ρ a u ∧ Lang ρ b v
+  | .alt a b => fun w => Lang ρ a w ∨ Lang ρ b w
+  | .rep r mn mx => fun w => ∃ k, mn ≤ k ∧ (∀ m, mx = some m → k ≤ m) ∧ Pow (Lang ρ r) k w
+  | .ext n => fun w => ρ n w
 
 end TmVerif.Regex
